@@ -205,6 +205,13 @@ def gen_script(rng, profile, nops, path, wal=None, allow_reopen=False):
                 s.add("put %d %s 0 %s 0 0" % (d, hexb(((1 << 63) + rng.below(1000)).to_bytes(8, "little")), hexb(val())))
             else:
                 s.add("put %d - 0 %s 0 0" % (d, hexb(val())))
+            if modes[d][2] == "1":
+                # a negative compound part has no encoded form: every call taking a key refuses it
+                nc = -rng.choice([1, 2, 127, 128, 1 << 40])
+                kk = hexb(gens[d].pick()[0])
+                s.add("put %d %s %d %s 0 0" % (d, kk, nc, hexb(val())))
+                s.add("get %d %s %d" % (d, kk, nc))
+                s.add("del %d %s %d" % (d, kk, nc))
         elif op == "putbig":
             s.add("putbig %d %s %d" % (d, keyarg(d), 268435456 - rng.choice([0, 1, 2])))
         elif op == "meta":
@@ -257,6 +264,7 @@ def gen_script(rng, profile, nops, path, wal=None, allow_reopen=False):
                 s.add("ccopyval %d %d" % (c, rng.choice([0, 2, 50, 3000])))
                 s.add("ccopykey %d %d" % (c, rng.choice([0, 2, 8, 300])))
                 s.add("cmatch %d %s" % (c, keyarg(d)))
+                s.add("cmatchself %d %d" % (c, rng.choice([4, 8])))
             elif op == "cset":
                 s.add("cset %d %s 0" % (c, hexb(val())))
                 s.add("cget %d" % c)
@@ -347,8 +355,10 @@ class Oracle:
                 if cs.get("cur") == deleted:
                     cs["cur"] = None        # the cursor now sits on the gap; reads show a neighbour
 
-    def eff_err(self, d, k):
+    def eff_err(self, d, k, comp=0):
         m = self.modes[d]
+        if m[2] == "1" and comp < 0:
+            return "INVALID_ARGS"      # the compound part has no encoded form for a negative number
         if m[0] == "1":
             if len(k) not in (4, 8):
                 return "KEY_NUM_VALUE_SIZE"
@@ -379,7 +389,7 @@ class Oracle:
         dslot = None
         if op in ("put", "putbig", "putkbig", "get", "getcopy", "del", "rdump", "struct", "dump"):
             dslot = int(f[1])
-        elif op in ("cto", "ctokey", "cget", "ckey", "cval", "ccopyval", "ccopykey", "cmatch", "cset", "cdel") and int(f[1]) in self.cur:
+        elif op in ("cto", "ctokey", "cget", "ckey", "cval", "ccopyval", "ccopykey", "cmatch", "cmatchself", "cset", "cdel") and int(f[1]) in self.cur:
             dslot = self.cur[int(f[1])]["db"]
         elif op == "copen":
             dslot = int(f[2])
@@ -459,8 +469,8 @@ class Oracle:
                 exp = "READONLY"
             elif len(k) == 0:
                 exp = "INVALID_ARGS"
-            elif self.eff_err(d, k):
-                exp = self.eff_err(d, k)
+            elif self.eff_err(d, k, comp):
+                exp = self.eff_err(d, k, comp)
             else:
                 lk = logical(m, k, comp)
                 ksz = (len(vnum(lk[0])) if m[0] == "1" else len(k)) + (len(vnum(comp)) if m[2] == "1" else 0)
@@ -499,9 +509,9 @@ class Oracle:
                 self.mutated(d)
         elif op in ("get", "getcopy"):
             d = int(f[1]); k = unhex(f[2]); comp = int(f[3])
-            if self.eff_err(d, k):
-                if o[0] != self.eff_err(d, k):
-                    bad("get with an invalid key must report %s" % self.eff_err(d, k))
+            if self.eff_err(d, k, comp):
+                if o[0] != self.eff_err(d, k, comp):
+                    bad("get with an invalid key must report %s" % self.eff_err(d, k, comp))
                 return
             lk = logical(self.modes[d], k, comp)
             v = self.db[d].get(lk)
@@ -517,7 +527,9 @@ class Oracle:
                     bad("get_copy returned wrong size/bytes (expected %d %s)" % (len(v), hexb(v[:bs])[:80]))
         elif op == "del":
             d = int(f[1]); k = unhex(f[2]); comp = int(f[3])
-            if self.eff_err(d, k):
+            if self.eff_err(d, k, comp):
+                if o[0] != self.eff_err(d, k, comp):
+                    bad("del with an invalid key must report %s" % self.eff_err(d, k, comp))
                 return
             lk = logical(self.modes[d], k, comp)
             if self.rdonly:
@@ -574,7 +586,7 @@ class Oracle:
                     self.cur[c] = {"db": d, "last": "BEGIN" if mv == 1 else "END", "stable": set(self.db[d].keys()), "cur": None}
             else:
                 k = unhex(f[4]); comp = int(f[5])
-                if self.eff_err(d, k):
+                if self.eff_err(d, k, comp):
                     return
                 self.poskey(c, d, mv, k, comp, o, bad, opening=True)
         elif op == "ctokey":
@@ -587,7 +599,7 @@ class Oracle:
                 self.uncertain.add(d)
                 return
             k = unhex(f[3]); comp = int(f[4])
-            if self.eff_err(d, k):
+            if self.eff_err(d, k, comp):
                 self.cur[c]["last"] = None
                 return
             self.poskey(c, d, int(f[2]), k, comp, o, bad, opening=False)
@@ -616,7 +628,7 @@ class Oracle:
                     self.after_move(cs, d, cs["pending_move"], None, bad, keep=True)
             cs["pending_move"] = (mv, o[0])
             cs["cur"] = None
-        elif op in ("cget", "ckey", "cval", "ccopyval", "ccopykey", "cmatch"):
+        elif op in ("cget", "ckey", "cval", "ccopyval", "ccopykey", "cmatch", "cmatchself"):
             c = int(f[1])
             if c not in self.cur:
                 return
@@ -638,10 +650,12 @@ class Oracle:
                         bad("cursor copy_val differs from the record under the cursor")
                     if op == "ccopykey" and (int(o[1]) != len(kb) or o[3] != hexb(kb[:int(f[2])]) or (m[2] == "1" and int(o[2]) != kc)):
                         bad("cursor copy_key differs from the record under the cursor")
+                    if op == "cmatchself" and o[0] == "OK" and (int(o[1]) != 1 or (m[2] == "1" and int(o[2]) != kc)):
+                        bad("is_matched_key does not match the key of the record under the cursor (number keys given as %s bytes)" % f[2])
                     if op == "cmatch":
                         ak = unhex(f[2])
                         if m[0] == "1":
-                            exp = (len(ak) == 8 and ak == kb)
+                            exp = (len(ak) in (4, 8) and int.from_bytes(ak, "little") == int.from_bytes(kb, "little"))
                         else:
                             exp = ak == kb
                         if int(o[1]) != (1 if exp else 0):
